@@ -129,6 +129,17 @@ def gen(rnd, family):
         elif rnd.random() < 0.5:
             rnd.shuffle(main)
         return {"nodes": nodes, "order": main + [e, sink2, sl], "stream_bytes": sb, "family": family}
+    elif family == "float":
+        n = rnd.choice([0, 1, 5, 6, 11, 40])
+        data = [rnd.randint(-3, 3) for _ in range(n)]
+        chunks = [rnd.randint(1, 7) for _ in range(12)]
+        cur = add("src_f", data=data, chunks=chunks)
+        for _ in range(rnd.randint(1, 2)):
+            if rnd.random() < 0.5:
+                cur = add("fftfiltf", [(cur, 1)], taps=[rnd.randint(-2, 2) or 1 for _ in range(rnd.choice([1, 2, 3, 4]))])
+            else:
+                cur = add("firf", [(cur, 1)], taps=[rnd.randint(-2, 2) or 1 for _ in range(rnd.choice([1, 2, 3]))], deci=rnd.choice([1, 2, 3]))
+        add("sink", [(cur, 1)])
     else:   # bits: nrzi / descrambler chain
         n = rnd.choice([0, 1, 17, 100, 5000])
         cur = add("src_u8", data=[rnd.randint(0, 1) for _ in range(n)])
@@ -141,7 +152,7 @@ def gen(rnd, family):
     return {"nodes": nodes, "order": order, "stream_bytes": sb, "family": family}
 
 
-FAMILIES = ["big_chain", "big_diamond", "pkt", "u8_rate", "bits"]
+FAMILIES = ["big_chain", "big_diamond", "pkt", "u8_rate", "bits", "float"]
 
 
 def make(ctx, runners, per_family, seeds_per_graph=1, salt=0):
@@ -245,6 +256,9 @@ def small_graphs():
     gs.append({"family": "sys_chain", "stream_bytes": 4096, "nodes": [N("src_big", data=[1, 2, 3]), N("addconst", [(1, 1)], val=1000), N("sink", [(2, 1)])]})
     gs.append({"family": "sys_delay", "stream_bytes": 4096, "nodes": [N("src_big", data=[1, 2]), N("delay", [(1, 1)], delay=2), N("sink", [(2, 1)])]})
     gs.append({"family": "sys_diamond", "stream_bytes": 4096, "nodes": [N("src_big", data=[1, 2]), N("tee", [(1, 1)]), N("add", [(2, 1), (2, 2)]), N("sink", [(3, 1)])]})
+    # blocks that wait for more than one sample: the source delivers in two instalments
+    gs.append({"family": "sys_fft", "stream_bytes": 4096, "nodes": [N("src_f", data=[1, 2, 3, 4, 5, 6], chunks=[3, 3]), N("fftfiltf", [(1, 1)], taps=[1, 2, 3]), N("sink", [(2, 1)])]})
+    gs.append({"family": "sys_fir", "stream_bytes": 4096, "nodes": [N("src_f", data=[1, 2, 3, 4, 5, 6, 7], chunks=[2, 3, 2]), N("firf", [(1, 1)], taps=[1, -1, 2], deci=2), N("sink", [(2, 1)])]})
     for g in gs:
         g["order"] = list(range(1, len(g["nodes"]) + 1))
     return gs
